@@ -14,6 +14,10 @@ import (
 func (self *BindStm) format(printer *printer, prefix string, idWidth int) {
 	printer.printComments(self.getNode(), prefix+INDENT)
 	printer.printComments(self.Exp.getNode(), prefix+INDENT)
+	if split, ok := self.Exp.(*SplitExp); ok && split.Value != nil {
+		// A comment between the split keyword and what is split.
+		printer.printComments(split.Value.getNode(), prefix+INDENT)
+	}
 
 	printer.mustWriteString(prefix)
 	printer.mustWriteString(INDENT)
